@@ -363,16 +363,103 @@ Proof. exists [ex_reorder], ex_T1, ex_T2. vm_compute. split; [discriminate | ref
 (* ------------------------------------------------------------ validation gate *)
 
 Lemma invalid_never_executed fx ops ts :
-  validate ops = Ok false -> remodel fx ops ts = Ok Rejected.
+  validate fx ops = Ok false -> remodel fx ops ts = Ok Rejected.
 Proof. intro H. unfold remodel. rewrite H. reflexivity. Qed.
 
 Lemma valid_is_executed fx ops ts sts :
-  validate ops = Ok true -> parse_operations ops = Ok sts ->
+  validate fx ops = Ok true -> parse_operations ops = Ok sts ->
   remodel fx ops ts = Ok (Ran (fst (run_tables fx sts ts)) (snd (run_tables fx sts ts))).
 Proof.
   intros H1 H2. unfold remodel. rewrite H1, H2. cbn [bind negb].
   destruct (run_tables fx sts ts). reflexivity.
 Qed.
+
+(* ---- a list without messages constructs (repaired validate_input_data of remap_columns) *)
+
+Lemma ctor_check_ok fx st :
+  fx_disjoint fx = true -> input_data_ok fx st = true -> ctor_check st = Ok st.
+Proof.
+  intros Hfx H. destruct st; try reflexivity. cbn [input_data_ok ctor_check] in *. rewrite Hfx in H.
+  apply andb_true_iff in H as [H _]. apply andb_true_iff in H as [Hnd Hlen].
+  rewrite Hlen, Hnd. reflexivity.
+Qed.
+
+(* the per-item computation shared by validate (second phase) and parse_operation *)
+Definition typed_item (item : json) : res opstate :=
+  let* nm := jget_req item k_operation in
+  let* ps := jget_req item k_parameters in
+  match nm with
+  | JStr name =>
+      match lookup name op_table with
+      | Some (_, init) => let* a := init ps in to_opstate name a
+      | None => Exn Unmodelled
+      end
+  | _ => Exn Unmodelled
+  end.
+
+Lemma parse_of_typed fx item st :
+  fx_disjoint fx = true -> typed_item item = Ok st -> input_data_ok fx st = true ->
+  parse_operation item = Ok st.
+Proof.
+  intros Hfx Ht Hok. unfold typed_item in Ht. unfold parse_operation.
+  destruct (jget_req item k_operation) as [nm|]; cbn [bind] in *; [|discriminate].
+  destruct (jget_req item k_parameters) as [ps|]; cbn [bind] in *; [|discriminate].
+  destruct nm; try discriminate.
+  destruct (lookup s op_table) as [[sch init]|]; [|discriminate].
+  destruct (init ps) as [a|]; cbn [bind] in *; [|discriminate].
+  rewrite Ht. cbn [bind]. apply (ctor_check_ok fx); assumption.
+Qed.
+
+Lemma parse_all_of_typed fx l sts :
+  fx_disjoint fx = true -> mapM typed_item l = Ok sts -> forallb (input_data_ok fx) sts = true ->
+  mapM parse_operation l = Ok sts.
+Proof.
+  intro Hfx. revert sts. induction l as [|item l IH]; intros sts Hm Hok; cbn [mapM] in *.
+  - exact Hm.
+  - destruct (typed_item item) as [st|] eqn:Et; cbn [bind] in *; [|discriminate].
+    destruct (mapM typed_item l) as [sts0|]; cbn [bind] in *; [|discriminate].
+    injection Hm as <-. cbn [forallb] in Hok. apply andb_true_iff in Hok as [H1 H2].
+    rewrite (parse_of_typed fx item st Hfx Et H1). cbn [bind]. rewrite (IH sts0 eq_refl H2). reflexivity.
+Qed.
+
+Lemma valid_constructs fx ops :
+  fx_disjoint fx = true -> validate fx ops = Ok true ->
+  exists sts, parse_operations ops = Ok sts /\ forallb (input_data_ok fx) sts = true.
+Proof.
+  intros Hfx H. unfold validate in H. destruct ops; try discriminate.
+  destruct l as [|item l]; [discriminate|].
+  destruct (mapM item_schema_ok (item :: l)) as [oks|]; cbn [bind] in H; [|discriminate].
+  destruct (negb (forallb (fun b => b) oks)); [discriminate|].
+  change (mapM _ (item :: l)) with (mapM typed_item (item :: l)) in H.
+  destruct (mapM typed_item (item :: l)) as [sts|] eqn:Em; cbn [bind] in H; [|discriminate].
+  injection H as H. exists sts. split; [|exact H].
+  unfold parse_operations. apply (parse_all_of_typed fx); assumption.
+Qed.
+
+(* hence a list without messages is always executed on every table *)
+Lemma valid_always_runs fx ops ts :
+  fx_disjoint fx = true -> validate fx ops = Ok true ->
+  exists sts, parse_operations ops = Ok sts /\
+    remodel fx ops ts = Ok (Ran (fst (run_tables fx sts ts)) (snd (run_tables fx sts ts))).
+Proof.
+  intros Hfx Hv. destruct (valid_constructs fx ops Hfx Hv) as [sts [Hp _]].
+  exists sts. split; [exact Hp | apply valid_is_executed; assumption].
+Qed.
+
+Definition ex_remap_overlap : json :=
+  JArr [JObj [(k_operation, JStr n_remap_columns); (k_description, JStr [100%N]);
+              (k_parameters, JObj [(k_source_columns, JArr [JStr [97%N]]);
+                                   (k_destination_columns, JArr [JStr [97%N]]);
+                                   (k_map_list, JArr [JArr [JStr [49%N]; JStr [50%N]]]);
+                                   (k_ignore_missing, JBool true)])]].
+
+(* record of the repaired defect: without the disjointness check the list
+   passes validation and the constructor raises *)
+Lemma valid_constructs_refuted :
+  validate no_fixes ex_remap_overlap = Ok true /\
+  parse_operations ex_remap_overlap = Exn ValueError /\
+  validate all_fixes ex_remap_overlap = Ok false.
+Proof. vm_compute. repeat split. Qed.
 
 (* ---- the required lists of the PARAMS cover every parameters['k'] of __init__ *)
 
@@ -426,14 +513,14 @@ Qed.
    kind.  split_rows and merge_consecutive with set_durations are not covered
    by the totality proof (their arithmetic on onset/duration is compared with
    the implementation by the correspondence run only). *)
-Definition applicable (st : opstate) (t : table) : bool :=
+Definition applicable_core (st : opstate) (t : table) : bool :=
   match st with
   | RemoveRows _ _ => true
   | RemoveColumns names ig => ig || forallb (has_col t) names
   | RenameColumns m ig => ig || forallb (fun kv => has_col t (fst kv)) m
   | ReorderColumns order ig _ => ig || forallb (has_col t) order
   | FactorColumn cn vs ns =>
-      has_col t cn && input_data_ok st
+      has_col t cn && input_data_ok all_fixes st
   | RemapColumns s d ml ig ints =>
       forallb (has_col t) s && ig &&
       negb (existsb (fun r => existsb (fun i => match get_cell i r with CStr _ => true | _ => false end)
@@ -476,10 +563,10 @@ Proof.
   - apply nth_error_None in En. lia.
 Qed.
 
-Lemma do_op_total st t :
-  applicable st t = true -> exists t', snd (do_op all_fixes st t) = Ok t'.
+Lemma do_op_total_core st t :
+  applicable_core st t = true -> exists t', snd (do_op all_fixes st t) = Ok t'.
 Proof.
-  destruct st; cbn [applicable do_op snd]; intro Ha.
+  destruct st; cbn [applicable_core do_op snd]; intro Ha.
   - (* remove_rows *) unfold do_remove_rows. destruct (index_of column_name (cols t)); eexists; reflexivity.
   - (* remove_columns *) unfold do_remove_columns.
     destruct ignore_missing; cbn [negb andb orb] in *; [eexists; reflexivity|].
@@ -577,6 +664,402 @@ Proof.
   - discriminate.
 Qed.
 
+(* ------------------------------------------------ small facts about cells *)
+
+Lemma index_of_mem c cs i : index_of c cs = Some i -> mem_str c cs = true.
+Proof.
+  revert i. induction cs as [|x cs IH]; intros i H; cbn [index_of] in H; [discriminate|].
+  cbn [mem_str existsb]. destruct (str_eqb c x); [reflexivity|]. cbn [orb].
+  destruct (index_of c cs) as [k|]; [exact (IH k eq_refl) | discriminate].
+Qed.
+
+Lemma index_of_app c l l' i : index_of c l = Some i -> index_of c (l ++ l') = Some i.
+Proof.
+  revert i. induction l as [|x l IH]; intros i H; cbn [index_of app] in *; [discriminate|].
+  destruct (str_eqb c x); [exact H|].
+  destruct (index_of c l) as [k|]; [|discriminate]. rewrite (IH k eq_refl). exact H.
+Qed.
+
+Lemma index_of_inj a b l i : index_of a l = Some i -> index_of b l = Some i -> a = b.
+Proof.
+  revert i. induction l as [|x l IH]; intros i Ha Hb; cbn [index_of] in *; [discriminate|].
+  destruct (str_eqb a x) eqn:Ea; destruct (str_eqb b x) eqn:Eb.
+  - apply str_eqb_spec in Ea, Eb. congruence.
+  - injection Ha as <-. destruct (index_of b l); discriminate.
+  - injection Hb as <-. destruct (index_of a l); discriminate.
+  - destruct (index_of a l) as [ka|]; [|discriminate]. destruct (index_of b l) as [kb|]; [|discriminate].
+    cbn [option_map] in *. apply (IH ka); [reflexivity|]. congruence.
+Qed.
+
+Lemma get_cell_nil i : get_cell i [] = CNa.
+Proof. unfold get_cell. destruct i; reflexivity. Qed.
+
+Lemma get_cell_set_nth j i v (l : list cell) :
+  get_cell j (set_nth i v l) = get_cell j l \/ (i = j /\ get_cell j (set_nth i v l) = v).
+Proof.
+  revert j i. induction l as [|x l IH]; intros j i.
+  - left. destruct i; reflexivity.
+  - destruct i as [|i]; cbn [set_nth].
+    + destruct j as [|j]; unfold get_cell; cbn [nth]; [right; split; reflexivity | left; reflexivity].
+    + destruct j as [|j]; unfold get_cell in *; cbn [nth]; [left; reflexivity|].
+      destruct (IH j i) as [H|[H1 H2]]; [left; exact H | right; split; [congruence | exact H2]].
+Qed.
+
+Lemma get_cell_app_na i (r : list cell) :
+  get_cell i (r ++ [CNa]) = get_cell i r \/ get_cell i (r ++ [CNa]) = CNa.
+Proof.
+  revert i. induction r as [|x r IH]; intro i; cbn [app].
+  - right. unfold get_cell. destruct i as [|[|i]]; reflexivity.
+  - destruct i as [|i]; unfold get_cell in *; cbn [nth]; [left; reflexivity | apply IH].
+Qed.
+
+Lemma get_cell_blank {A} i (l : list A) : get_cell i (map (fun _ => CNa) l) = CNa.
+Proof.
+  revert i. induction l as [|x l IH]; intro i; cbn [map]; [apply get_cell_nil|].
+  destruct i as [|i]; unfold get_cell in *; cbn [nth]; [reflexivity | apply IH].
+Qed.
+
+Lemma Forall_set_nth {A} (P : A -> Prop) i v (l : list A) : Forall P l -> P v -> Forall P (set_nth i v l).
+Proof.
+  intros Hl Hv. revert i. induction Hl as [|x l Hx Hl IH]; intro i; [destruct i; constructor|].
+  destruct i as [|i]; cbn [set_nth]; constructor; auto.
+Qed.
+
+Lemma Forall_filter_mask {A} (P : A -> Prop) m (l : list A) : Forall P l -> Forall P (filter_mask m l).
+Proof.
+  intro Hl. revert m. induction Hl as [|x l Hx Hl IH]; intro m; destruct m as [|b m]; cbn [filter_mask]; try constructor.
+  destruct b; [constructor; auto | apply IH].
+Qed.
+
+Lemma Forall_nth_default {A} (P : A -> Prop) (l : list A) d i : Forall P l -> P d -> P (nth i l d).
+Proof.
+  intros Hl Hd. revert i. induction Hl as [|x l Hx Hl IH]; intro i; destruct i; cbn [nth]; auto.
+Qed.
+
+Lemma mapM_Forall {A B} (f : A -> res B) l ys :
+  mapM f l = Ok ys -> Forall (fun y => exists x, In x l /\ f x = Ok y) ys.
+Proof.
+  revert ys. induction l as [|x l IH]; intros ys H; cbn [mapM] in H.
+  - injection H as <-. constructor.
+  - destruct (f x) as [y|] eqn:Ex; cbn [bind] in H; [|discriminate].
+    destruct (mapM f l) as [ys0|]; cbn [bind] in H; [|discriminate]. injection H as <-.
+    constructor; [exists x; split; [left; reflexivity | exact Ex]|].
+    eapply Forall_impl; [|exact (IH ys0 eq_refl)].
+    intros y1 [x0 [Hin Hf]]. exists x0. split; [right; exact Hin | exact Hf].
+Qed.
+
+Definition numeric_cell (c : cell) : bool := match c with CStr _ => false | _ => true end.
+Definition strict_ok (c : cell) : bool :=
+  match c with CStr s => match parse_int s with Some _ => true | None => false end | _ => true end.
+
+(* every cell of the named column satisfies p (and the column exists) *)
+Definition col_all (p : cell -> bool) (c : str) (t : table) : bool :=
+  match index_of c (cols t) with
+  | Some i => forallb (fun r => p (get_cell i r)) (rows t)
+  | None => false
+  end.
+
+(* ------------------------------------ merge_consecutive with set_durations *)
+
+Definition numrow (io id : nat) (r : list cell) : Prop :=
+  numeric_cell (get_cell io r) = true /\ numeric_cell (get_cell id r) = true.
+
+Lemma row_extent_ok io id r : numrow io id r -> exists z, row_extent io id r = Ok z.
+Proof.
+  intros [H1 H2]. unfold row_extent, num_or_zero.
+  destruct (get_cell io r); try discriminate; destruct (get_cell id r); try discriminate;
+    cbn [bind]; eexists; reflexivity.
+Qed.
+
+Lemma update_group_ok io id groups g rs :
+  Forall (numrow io id) rs ->
+  (exists a, first_index g groups = Some (S a)) ->
+  exists rs', update_group io id groups g rs = Ok rs' /\ Forall (numrow io id) rs'.
+Proof.
+  intros HP [a Ha]. unfold update_group. rewrite Ha.
+  destruct (mapM_ok (row_extent io id) (filter_mask (map (Nat.eqb g) groups) rs)) as [exts He].
+  { intros r Hr. apply row_extent_ok.
+    pose proof (Forall_filter_mask (numrow io id) (map (Nat.eqb g) groups) rs HP) as HF.
+    rewrite Forall_forall in HF. apply HF. exact Hr. }
+  rewrite He. cbn [bind]. cbv zeta.
+  assert (Hnil : numrow io id []) by (split; rewrite get_cell_nil; reflexivity).
+  pose proof (Forall_nth_default (numrow io id) rs [] a HP Hnil) as Harow.
+  destruct (row_extent_ok io id _ Harow) as [za Hza]. rewrite Hza. cbn [bind].
+  set (arow := nth a rs []) in *.
+  set (newdur := match get_cell io arow with
+                 | CNum o => CNum (Z.max (fold_left Z.max exts (hd 0%Z exts)) za - o)
+                 | _ => CNa
+                 end).
+  assert (Hnd : numeric_cell newdur = true) by (unfold newdur; destruct (get_cell io arow); reflexivity).
+  assert (Hnew : numrow io id (set_nth id newdur arow)).
+  { destruct Harow as [H1 H2]. split.
+    - destruct (get_cell_set_nth io id newdur arow) as [E|[_ E]]; rewrite E; assumption.
+    - destruct (get_cell_set_nth id id newdur arow) as [E|[_ E]]; rewrite E; assumption. }
+  destruct Harow as [H1 _].
+  destruct (get_cell io arow) eqn:Ec; [discriminate H1 | |];
+    (eexists; split; [reflexivity | apply Forall_set_nth; assumption]).
+Qed.
+
+Lemma update_durations_ok io id groups gs rs :
+  Forall (numrow io id) rs ->
+  Forall (fun g => exists a, first_index g groups = Some (S a)) gs ->
+  exists rs', update_durations io id groups gs rs = Ok rs'.
+Proof.
+  intros HP Hgs. revert rs HP. induction Hgs as [|g gs Hg Hgs IH]; intros rs HP; cbn [update_durations].
+  - eexists; reflexivity.
+  - destruct (update_group_ok io id groups g rs HP Hg) as [rs' [E HP']]. rewrite E. cbn [bind].
+    apply IH. exact HP'.
+Qed.
+
+Lemma first_index_in g l : In g l -> exists k, first_index g l = Some k.
+Proof.
+  induction l as [|x l IH]; intro H; [destruct H|]. cbn [first_index].
+  destruct (Nat.eqb x g) eqn:E; [eexists; reflexivity|].
+  destruct H as [H|H]; [subst; rewrite Nat.eqb_refl in E; discriminate|].
+  destruct (IH H) as [k Hk]. rewrite Hk. eexists; reflexivity.
+Qed.
+
+Lemma remove_groups_head key code prev count rs :
+  match remove_groups_loop key code prev false count rs with [] => True | x :: _ => x = 0 end.
+Proof. destruct rs as [|r rs]; cbn [remove_groups_loop]; [exact I|]. destruct (negb (code r)); reflexivity. Qed.
+
+Lemma first_index_pos g groups :
+  In g groups -> g <> 0 -> match groups with [] => True | x :: _ => x = 0 end ->
+  exists a, first_index g groups = Some (S a).
+Proof.
+  intros Hin Hg Hh. destruct groups as [|x l]; [destruct Hin|]. subst x.
+  cbn [first_index]. destruct (Nat.eqb 0 g) eqn:E; [apply Nat.eqb_eq in E; congruence|].
+  destruct Hin as [H|H]; [congruence|]. destruct (first_index_in g l H) as [k Hk]. rewrite Hk.
+  eexists; reflexivity.
+Qed.
+
+Ltac merge_tail io id HP :=
+  cbv zeta;
+  match goal with |- context [negb (existsb ?f (rows ?t))] => destruct (negb (existsb f (rows t))) end;
+  [eexists; reflexivity|];
+  match goal with |- context [remove_groups_loop ?k ?c ?p false ?n ?r] =>
+    let Hh := fresh "Hh" in
+    pose proof (remove_groups_head k c p n r) as Hh;
+    generalize dependent (remove_groups_loop k c p false n r); intros groups Hh;
+    match goal with |- context [Nat.ltb 0 ?m] => destruct (Nat.ltb 0 m) end; cbn [bind];
+    [|eexists; reflexivity];
+    match goal with |- context [update_durations io id groups ?gs ?rs] =>
+      let rs' := fresh "rs" in let Hrs' := fresh "Hrs" in
+      destruct (update_durations_ok io id groups gs rs HP) as [rs' Hrs'];
+      [apply Forall_forall; intros g Hg; apply filter_In in Hg as [Hg1 Hg2];
+       apply in_seq in Hg1; apply existsb_exists in Hg2 as [x [Hx1 Hx2]];
+       apply Nat.eqb_eq in Hx2; subst x; apply first_index_pos; [exact Hx1 | lia | exact Hh]
+      | rewrite Hrs'; cbn [bind]; eexists; reflexivity]
+    end
+  end.
+
+Lemma do_merge_setd_total cn code ig mc t :
+  has_col t cn = true ->
+  (ig || forallb (has_col t) (match mc with Some l => l | None => [] end))%bool = true ->
+  col_all numeric_cell s_onset t = true -> col_all numeric_cell s_duration t = true ->
+  exists t', do_merge_consecutive all_fixes cn code true ig mc t = Ok t'.
+Proof.
+  intros Hc Hm Hon Hdu. unfold col_all in Hon, Hdu.
+  destruct (index_of s_onset (cols t)) as [io|] eqn:Eio; [|discriminate].
+  destruct (index_of s_duration (cols t)) as [id|] eqn:Eid; [|discriminate].
+  assert (Ho : has_col t s_onset = true) by exact (index_of_mem _ _ _ Eio).
+  assert (Hd : has_col t s_duration = true) by exact (index_of_mem _ _ _ Eid).
+  assert (HP : Forall (numrow io id) (rows t)).
+  { apply Forall_forall. intros r Hr. rewrite forallb_forall in Hon, Hdu. split; auto. }
+  unfold do_merge_consecutive. rewrite Hc, Ho, Hd, Eio, Eid. cbn [negb andb]. rewrite andb_false_r.
+  destruct (index_of_some cn (cols t) Hc) as [ic Hic]. rewrite Hic.
+  destruct mc as [l|]; cbn [bind all_fixes fx_match fx_gaps] in *.
+  - destruct ig; cbn [negb andb orb] in *.
+    + merge_tail io id HP.
+    + rewrite (forallb_negb_existsb (has_col t) _ Hm). merge_tail io id HP.
+  - destruct ig; cbn [negb andb orb existsb] in *; merge_tail io id HP.
+Qed.
+
+(* ------------------------------------------------------------ split_rows *)
+
+Definition src_ok (t : table) (v : pval) : bool :=
+  match v with PStr c => has_col t c | PNum _ => true end.
+
+Definition event_ok (t : table) (ev : str * new_event) : bool :=
+  forallb (src_ok t) (onset_source (snd ev)) && forallb (src_ok t) (duration_source (snd ev))
+  && forallb (has_col t) (match copy_columns (snd ev) with Some l => l | None => [] end).
+
+(* onset holds numbers, numeric-looking text or n/a; duration exists; the
+   anchor is not the onset column; every named source / copied column exists *)
+Definition split_applicable (anchor : str) (evs : list (str * new_event)) (t : table) : bool :=
+  col_all strict_ok s_onset t && has_col t s_duration && negb (str_eqb anchor s_onset)
+  && forallb (event_ok t) evs.
+
+Lemma to_num_strict_ok c : strict_ok c = true -> exists c', to_num_strict c = Ok c'.
+Proof.
+  unfold strict_ok, to_num_strict. destruct c as [s| |]; try (intros _; eexists; reflexivity).
+  destruct (parse_int s); [intros _; eexists; reflexivity | discriminate].
+Qed.
+
+Lemma num_cell_strict o : strict_ok (num_cell o) = true.
+Proof. destruct o; reflexivity. Qed.
+
+Lemma add_sources_ok t srcs acc :
+  forallb (src_ok t) srcs = true -> exists r, add_sources t srcs acc = Ok r.
+Proof.
+  revert acc. induction srcs as [|v srcs IH]; intros acc H; cbn [add_sources]; [eexists; reflexivity|].
+  cbn [forallb] in H. apply andb_true_iff in H as [H1 H2]. destruct v as [c|z]; cbn [src_ok] in H1.
+  - destruct (index_of_some c (cols t) H1) as [i Hi]. rewrite Hi. apply IH. exact H2.
+  - apply IH. exact H2.
+Qed.
+
+Lemma fold_copy_strict io r0 (cidx : list (nat * nat)) acc :
+  strict_ok (get_cell io acc) = true ->
+  Forall (fun p => snd p = io -> strict_ok (get_cell (fst p) r0) = true) cidx ->
+  strict_ok (get_cell io (fold_left (fun a p => set_nth (snd p) (get_cell (fst p) r0) a) cidx acc)) = true.
+Proof.
+  intros Hacc HF. revert acc Hacc. induction HF as [|p cidx Hp HF IH]; intros acc Hacc; cbn [fold_left]; [exact Hacc|].
+  apply IH. destruct (get_cell_set_nth io (snd p) (get_cell (fst p) r0) acc) as [E|[E1 E2]]; rewrite ?E, ?E2; auto.
+Qed.
+
+Lemma split_event_ok anchor t out io ev :
+  index_of s_onset (cols t) = Some io ->
+  forallb (fun r => strict_ok (get_cell io r)) (rows t) = true ->
+  (forall c i, index_of c (cols t) = Some i -> index_of c out = Some i) ->
+  has_col t s_duration = true ->
+  (exists oa, index_of anchor out = Some oa) ->
+  str_eqb anchor s_onset = false ->
+  event_ok t ev = true ->
+  exists added, split_event all_fixes anchor t out ev = Ok added /\
+                Forall (fun r => strict_ok (get_cell io r) = true) added.
+Proof.
+  intros Hio Hstrict Hext Hdur [oa Hoa] Hanch Hev. destruct ev as [name e].
+  unfold event_ok in Hev. cbn [snd] in Hev.
+  apply andb_true_iff in Hev as [Hev Hcopy]. apply andb_true_iff in Hev as [Hos Hds].
+  destruct (index_of_some s_duration (cols t) Hdur) as [id Hid].
+  unfold split_event. rewrite Hio, (Hext _ _ Hio), Hoa, (Hext _ _ Hid).
+  destruct (add_sources_ok t (onset_source e) (map (fun r => to_num_coerce (get_cell io r)) (rows t)) Hos) as [onsets Eon].
+  destruct (add_sources_ok t (duration_source e) (map (fun _ => Some 0%Z) (rows t)) Hds) as [durs Edu].
+  rewrite Eon, Edu. cbn [bind].
+  set (copy := match copy_columns e with Some l => l | None => [] end) in *.
+  assert (Ecopy : match copy_columns e with
+                  | Some l => Ok l
+                  | None => if fx_copy all_fixes then Ok [] else Exn KeyError
+                  end = Ok copy) by (unfold copy; destruct (copy_columns e); reflexivity).
+  rewrite Ecopy. cbn [bind].
+  set (f := fun c => match index_of c (cols t), index_of c out with
+                     | Some i, Some o => Ok (i, o)
+                     | _, _ => Exn KeyError
+                     end).
+  destruct (mapM_ok f copy) as [cidx Ecidx].
+  { intros c Hc. rewrite forallb_forall in Hcopy. destruct (index_of_some c (cols t) (Hcopy c Hc)) as [i Hi].
+    unfold f. rewrite Hi, (Hext _ _ Hi). eexists; reflexivity. }
+  rewrite Ecidx. cbn [bind]. eexists. split; [reflexivity|].
+  assert (Hoa_ne : oa <> io).
+  { intro E. subst oa. pose proof (index_of_inj _ _ _ _ Hoa (Hext _ _ Hio)) as Hsame.
+    subst anchor. rewrite str_eqb_refl in Hanch. discriminate. }
+  assert (Hcidx : forall r0, In r0 (rows t) ->
+            Forall (fun p => snd p = io -> strict_ok (get_cell (fst p) r0) = true) cidx).
+  { intros r0 Hr0. eapply Forall_impl; [|exact (mapM_Forall f copy cidx Ecidx)].
+    intros p [c [_ Hf]] Hsnd. unfold f in Hf.
+    destruct (index_of c (cols t)) as [i|] eqn:Ei; [|discriminate].
+    destruct (index_of c out) as [o|] eqn:Eo; [|discriminate]. injection Hf as <-. cbn [fst snd] in *. subst o.
+    pose proof (index_of_inj _ _ _ _ Eo (Hext _ _ Hio)) as Hsame. subst c.
+    assert (i = io) by congruence. subst i.
+    rewrite forallb_forall in Hstrict. apply Hstrict. exact Hr0. }
+  apply Forall_forall. intros r Hr. apply filter_In in Hr as [Hr _].
+  apply in_map_iff in Hr as [[[on du] r0] [<- Hin]].
+  apply in_combine_r in Hin.
+  apply fold_copy_strict; [|apply Hcidx; exact Hin].
+  destruct (get_cell_set_nth io id (num_cell du)
+              (set_nth oa (CStr name) (set_nth io (num_cell on) (map (fun _ => CNa) out)))) as [E|[_ E]];
+    rewrite E; [|apply num_cell_strict].
+  destruct (get_cell_set_nth io oa (CStr name) (set_nth io (num_cell on) (map (fun _ => CNa) out))) as [E2|[E2 _]];
+    [rewrite E2 | congruence].
+  destruct (get_cell_set_nth io io (num_cell on) (map (fun _ => CNa) out)) as [E3|[_ E3]]; rewrite E3;
+    [rewrite get_cell_blank; reflexivity | apply num_cell_strict].
+Qed.
+
+Lemma split_events_ok anchor t out io evs :
+  index_of s_onset (cols t) = Some io ->
+  forallb (fun r => strict_ok (get_cell io r)) (rows t) = true ->
+  (forall c i, index_of c (cols t) = Some i -> index_of c out = Some i) ->
+  has_col t s_duration = true ->
+  (exists oa, index_of anchor out = Some oa) ->
+  str_eqb anchor s_onset = false ->
+  forallb (event_ok t) evs = true ->
+  exists added, split_events all_fixes anchor t out evs = Ok added /\
+                Forall (fun r => strict_ok (get_cell io r) = true) added.
+Proof.
+  intros Hio Hs Hext Hd Hoa Ha. induction evs as [|ev evs IH]; intro He; cbn [split_events].
+  - eexists. split; [reflexivity | constructor].
+  - cbn [forallb] in He. apply andb_true_iff in He as [He1 He2].
+    destruct (split_event_ok anchor t out io ev Hio Hs Hext Hd Hoa Ha He1) as [a [Ea Fa]].
+    destruct (IH He2) as [b [Eb Fb]]. rewrite Ea, Eb. cbn [bind].
+    eexists. split; [reflexivity|]. apply Forall_app. split; assumption.
+Qed.
+
+Lemma split_finish io (all : list (list cell)) cs :
+  Forall (fun r => strict_ok (get_cell io r) = true) all ->
+  exists t', (let* all1 := mapM (fun r => let* c := to_num_strict (get_cell io r) in Ok (set_nth io c r)) all in
+              Ok {| cols := cs; rows := sort_rows io all1 |}) = Ok t'.
+Proof.
+  intro H.
+  destruct (mapM_ok (fun r => let* c := to_num_strict (get_cell io r) in Ok (set_nth io c r)) all) as [all1 E].
+  { intros r Hr. rewrite Forall_forall in H. destruct (to_num_strict_ok _ (H r Hr)) as [c Hc].
+    rewrite Hc. cbn [bind]. eexists; reflexivity. }
+  rewrite E. cbn [bind]. eexists; reflexivity.
+Qed.
+
+Lemma do_split_total anchor evs rp t :
+  split_applicable anchor evs t = true -> exists t', do_split_rows all_fixes anchor evs rp t = Ok t'.
+Proof.
+  unfold split_applicable. intro H.
+  apply andb_true_iff in H as [H Hevs]. apply andb_true_iff in H as [H Hanch].
+  apply andb_true_iff in H as [Hon Hdur]. apply negb_true_iff in Hanch.
+  unfold col_all in Hon. destruct (index_of s_onset (cols t)) as [io|] eqn:Eio; [|discriminate].
+  assert (Ho : has_col t s_onset = true) by exact (index_of_mem _ _ _ Eio).
+  unfold do_split_rows. rewrite Ho, Hdur. cbn [negb].
+  assert (Hparents : Forall (fun r => strict_ok (get_cell io r) = true) (rows t)).
+  { apply Forall_forall. intros r Hr. rewrite forallb_forall in Hon. apply Hon. exact Hr. }
+  destruct (has_col t anchor) eqn:Ean.
+  - destruct (split_events_ok anchor t (cols t) io evs Eio Hon (fun c i Hc => Hc) Hdur
+                (index_of_some anchor (cols t) Ean) Hanch Hevs) as [added [Ea Fa]].
+    rewrite Ea. cbn [bind]. rewrite Eio. apply split_finish.
+    destruct rp; cbn [app]; [exact Fa | apply Forall_app; split; assumption].
+  - cbn [cols rows].
+    assert (Hoa : exists oa, index_of anchor (cols t ++ [anchor]) = Some oa).
+    { apply index_of_some. apply mem_str_In. apply in_or_app. right. left. reflexivity. }
+    destruct (split_events_ok anchor t (cols t ++ [anchor]) io evs Eio Hon
+                (fun c i Hc => index_of_app c (cols t) [anchor] i Hc) Hdur Hoa Hanch Hevs) as [added [Ea Fa]].
+    rewrite Ea. cbn [bind]. rewrite (index_of_app _ _ [anchor] _ Eio). apply split_finish.
+    assert (Hp2 : Forall (fun r => strict_ok (get_cell io r) = true) (map (fun r => r ++ [CNa]) (rows t))).
+    { apply Forall_forall. intros r Hr. apply in_map_iff in Hr as [r0 [<- Hr0]].
+      rewrite Forall_forall in Hparents.
+      destruct (get_cell_app_na io r0) as [E|E]; rewrite E; [apply Hparents; exact Hr0 | reflexivity]. }
+    destruct rp; cbn [app]; [exact Fa | apply Forall_app; split; assumption].
+Qed.
+
+(* ------------------------------------------------------------ all eight *)
+
+(* [applicable st t]: the table contains the columns the operation names (or
+   the operation is told to ignore missing ones) with values of the expected
+   kind (numbers or n/a in onset/duration where they are summed). *)
+Definition applicable (st : opstate) (t : table) : bool :=
+  match st with
+  | MergeConsecutive cn _ true ig mc =>
+      has_col t cn && (ig || forallb (has_col t) (match mc with Some l => l | None => [] end))
+      && col_all numeric_cell s_onset t && col_all numeric_cell s_duration t
+  | SplitRows anchor evs _ => split_applicable anchor evs t
+  | _ => applicable_core st t
+  end.
+
+Lemma do_op_total st t :
+  applicable st t = true -> exists t', snd (do_op all_fixes st t) = Ok t'.
+Proof.
+  destruct st; try (exact (do_op_total_core _ t)).
+  - destruct set_durations; [|exact (do_op_total_core _ t)].
+    cbn [applicable do_op snd]. intro H.
+    apply andb_true_iff in H as [H Hdu]. apply andb_true_iff in H as [H Hon]. apply andb_true_iff in H as [Hc Hm].
+    apply do_merge_setd_total; assumption.
+  - cbn [applicable do_op snd]. apply do_split_total.
+Qed.
+
 (* the four optional-parameter crashes and the group-numbering crash, as the code is *)
 Definition s1 (c : N) : str := [c].
 Definition ex_factor_no_values : opstate := FactorColumn (s1 97) None None.
@@ -591,33 +1074,40 @@ Definition ex_T3 : table :=
 Definition ex_merge_gap : opstate := MergeConsecutive (s1 98) (PStr (s1 120)) true true (Some []).
 
 Lemma valid_runs_refuted_factor_values :
-  input_data_ok ex_factor_no_values = true /\ has_col ex_T1 (s1 97) = true /\
+  input_data_ok no_fixes ex_factor_no_values = true /\ has_col ex_T1 (s1 97) = true /\
   snd (do_op no_fixes ex_factor_no_values ex_T1) = Exn TypeError.
 Proof. vm_compute. repeat split. Qed.
 
 Lemma valid_runs_refuted_factor_names :
-  input_data_ok ex_factor_no_names = true /\ has_col ex_T1 (s1 97) = true /\
+  input_data_ok no_fixes ex_factor_no_names = true /\ has_col ex_T1 (s1 97) = true /\
   snd (do_op no_fixes ex_factor_no_names ex_T1) = Exn TypeError.
 Proof. vm_compute. repeat split. Qed.
 
 Lemma valid_runs_refuted_merge_match :
-  input_data_ok ex_merge_no_match = true /\ has_col ex_T1 (s1 98) = true /\
+  input_data_ok no_fixes ex_merge_no_match = true /\ has_col ex_T1 (s1 98) = true /\
   snd (do_op no_fixes ex_merge_no_match ex_T1) = Exn TypeError.
 Proof. vm_compute. repeat split. Qed.
 
 Lemma valid_runs_refuted_split_copy :
-  input_data_ok ex_split_no_copy = true /\ wfb ex_T3 = true /\
+  input_data_ok no_fixes ex_split_no_copy = true /\ wfb ex_T3 = true /\
   snd (do_op no_fixes ex_split_no_copy ex_T3) = Exn KeyError /\
   is_ok (snd (do_op all_fixes ex_split_no_copy ex_T3)) = true.
 Proof. vm_compute. repeat split. Qed.
 
 Lemma valid_runs_refuted_merge_gap :
-  input_data_ok ex_merge_gap = true /\ wfb ex_T3 = true /\
+  input_data_ok no_fixes ex_merge_gap = true /\ wfb ex_T3 = true /\
   snd (do_op no_fixes ex_merge_gap ex_T3) = Exn IndexError /\
   snd (do_op all_fixes ex_merge_gap ex_T3)
   = Ok {| cols := cols ex_T3;
           rows := [[CNum 1; CNum 1; CStr (s1 120)]; [CNum 2; CNum 1; CStr (s1 121)];
                    [CNum 3; CNum 2; CStr (s1 120)]] |}.
+Proof. vm_compute. repeat split. Qed.
+
+(* the former crash witnesses satisfy the hypothesis of do_op_total *)
+Lemma former_witnesses_applicable :
+  applicable ex_factor_no_values ex_T1 = true /\ applicable ex_factor_no_names ex_T1 = true /\
+  applicable ex_merge_no_match ex_T1 = true /\ applicable ex_split_no_copy ex_T3 = true /\
+  applicable ex_merge_gap ex_T3 = true.
 Proof. vm_compute. repeat split. Qed.
 
 (* with every optional parameter present (and no set_durations) the code as it
@@ -632,10 +1122,10 @@ Definition optionals_present (st : opstate) : bool :=
   end.
 
 Lemma do_op_same_when_present st t :
-  optionals_present st = true -> applicable st t = true ->
+  optionals_present st = true -> applicable_core st t = true ->
   snd (do_op no_fixes st t) = snd (do_op all_fixes st t).
 Proof.
-  destruct st; cbn [optionals_present applicable do_op snd]; intros Hp Ha; try reflexivity.
+  destruct st; cbn [optionals_present applicable_core do_op snd]; intros Hp Ha; try reflexivity.
   - (* reorder: the table is the same, only the state differs *)
     unfold do_reorder_columns. cbv zeta.
     destruct (filter (fun c => negb (has_col t c)) column_order); [|destruct (negb ignore_missing)]; reflexivity.
@@ -652,10 +1142,10 @@ Proof.
 Qed.
 
 Lemma do_op_total_partial st t :
-  optionals_present st = true -> applicable st t = true ->
+  optionals_present st = true -> applicable_core st t = true ->
   exists t', snd (do_op no_fixes st t) = Ok t'.
 Proof.
-  intros Hp Ha. rewrite (do_op_same_when_present st t Hp Ha). apply do_op_total. exact Ha.
+  intros Hp Ha. rewrite (do_op_same_when_present st t Hp Ha). apply do_op_total_core. exact Ha.
 Qed.
 
 (* the translated accesses of _split_rows are NOT covered by the schema of a
@@ -667,17 +1157,41 @@ Definition event_schema : option schema :=
   | Some (Sch _ _ pat _ _ _ _ _ _ _) => pat
   | None => None
   end.
-Lemma split_event_fetch_refuted :
-  exists sch, event_schema = Some sch /\ check sch ex_event = true /\
-              split_rows_event_fetch ex_event = Exn KeyError.
-Proof. eexists. vm_compute. repeat split. Qed.
-(* AFTER the repair `event_params.get('copy_columns', [])` the translated
-   fetch changes and the lemma above stops compiling (that is the tie).
-   Replace it (and C17_split_event_fetch_refuted in Props/C17.v) by:
-     Lemma split_event_fetch_repaired :
-       exists sch, event_schema = Some sch /\ check sch ex_event = true /\
-                   is_ok (split_rows_event_fetch ex_event) = true.
-     Proof. eexists. vm_compute. repeat split. Qed.                        *)
+(* [event_fetch_safe]: the accesses translated from _split_rows succeed on an
+   entry that has only the keys the schema requires *)
+Definition event_fetch_safe : bool := is_ok (split_rows_event_fetch ex_event).
+
+(* With `event_params.get('copy_columns', [])` (repaired tree) every entry
+   accepted by the new_events schema can be read.  The statement is guarded by
+   [event_fetch_safe] so that this file also compiles against the unrepaired
+   tree, where the guard is false (see valid_runs_refuted_split_copy);
+   Props/C17Now.v discharges the guard for the tree as it now is. *)
+Lemma split_event_fetch_total :
+  event_fetch_safe = true ->
+  exists sch, event_schema = Some sch /\
+    forall ev, check sch ev = true -> exists a, split_rows_event_fetch ev = Ok a.
+Proof.
+  intro Hsafe. vm_compute in Hsafe.
+  first
+    [ discriminate Hsafe
+    | eexists; split; [reflexivity|];
+      intros p Hc; apply check_object_required in Hc; [|reflexivity];
+      destruct Hc as [kvs [-> Hreq]]; cbn [forallb] in Hreq;
+      repeat match type of Hreq with
+             | (_ && _)%bool = true => let H := fresh "Hk" in apply andb_true_iff in Hreq as [H Hreq]
+             end;
+      cbv beta iota delta [split_rows_event_fetch jget_req jget_opt];
+      repeat match goal with
+             | H : match lookup ?k kvs with Some _ => true | None => false end = true |- _ =>
+                 destruct (lookup k kvs) eqn:?; [clear H | discriminate H]
+             end;
+      cbn [bind];
+      repeat match goal with
+             | |- context [match lookup ?k kvs with Some _ => _ | None => _ end] =>
+                 destruct (lookup k kvs); cbn [bind]
+             end;
+      eexists; reflexivity ].
+Qed.
 
 (* non-vacuity: a validated three-operation list runs on a table with n/a cells *)
 Definition ex_ops : list opstate :=
@@ -685,7 +1199,7 @@ Definition ex_ops : list opstate :=
    RemoveRows (s1 122) [PStr (s1 49); PNum 2];
    ReorderColumns [s1 99; s1 122] true false].
 Lemma ex_ops_run :
-  forallb input_data_ok ex_ops = true /\
+  forallb (input_data_ok all_fixes) ex_ops = true /\
   run_tables no_fixes ex_ops [ex_T1; ex_T1]
   = (ex_ops, [Ok {| cols := [s1 99; s1 122]; rows := [[CStr [122%N]; CStr [50%N]]] |};
               Ok {| cols := [s1 99; s1 122]; rows := [[CStr [122%N]; CStr [50%N]]] |}]).
